@@ -342,6 +342,13 @@ class Loops:
         def created(s):
             return s.created[base_created:]
 
+        base_undet = len(st.undet)
+
+        def und(s):
+            return len(s.undet) > base_undet
+
+        self._und = und
+
         # flags: env variables (not targets) assigned on some normal path
         flag_assign = {}  # name -> list of (path index, value)
         for idx, (s, o) in enumerate(normal_paths):
@@ -380,6 +387,8 @@ class Loops:
                 cs = created(s)
                 disj.append(z3.Exists(cs, d) if cs else d)
             any_exit = z3.Or(*disj) if len(disj) > 1 else disj[0]
+            if any(und(s) for s, _o in exit_paths):
+                any_exit = None  # havocked values on an exit path: "did not exit" cannot be expressed -> no fact (sound)
         for s, o in exit_paths:
             # exit at index k (a skolem constant of that state); earlier iterations did not exit
             if any_exit is not None:
@@ -419,7 +428,7 @@ class Loops:
         fts = [ft]
         for nm, assigns in flag_assign.items():
             vals = [v for _, v in assigns]
-            if not all(self._same_const(vals[0], v) for v in vals):
+            if not all(self._same_const(vals[0], v) for v in vals) or any(und(normal_paths[idx][0]) for idx, _v in assigns):
                 for f in fts:
                     f.envs[fr.env_id][nm] = POISON
                 continue
@@ -457,8 +466,16 @@ class Loops:
         (a bucket exists afterwards for every key some iteration *may* touch -- key presence is not tracked)"""
         ex = self.ex
         keys = [kk for kk, _v in old.items]
+
+        def concrete_key(kk):
+            if isinstance(kk, (bool, int, str)) or kk is None:
+                return True
+            return isinstance(kk, SV) and z3.is_const(kk.term) and kk.term.decl().kind() == z3.Z3_OP_DT_CONSTRUCTOR
+
         for _idx, (_kind, items) in contribs:
             for kk, _inner in items:
+                if not concrete_key(kk):
+                    raise Unsupported("defaultdict accumulator with symbolic keys (needs a LoopSpec)")
                 if not any(ex.eq(ft, kk, k2) is True for k2 in keys):
                     if any(not isinstance(ex.eq(ft, kk, k2), bool) for k2 in keys):
                         raise Unsupported("defaultdict accumulator with symbolic keys (needs a LoopSpec)")
@@ -526,7 +543,13 @@ class Loops:
                 for it in old.items or ():
                     oldt = z3.Store(oldt, ex.to_term(ft, it, et), True)
             added = z3.Exists([k], z3.Or(*disj) if len(disj) > 1 else disj[0]) if disj else z3.BoolVal(False)
-            new = SV(z3.Lambda([x], z3.Or(z3.Select(oldt, x), added)), ("set", et))
+            if any(self._und(normal_paths[idx][0]) for idx, _c in contribs):
+                # some contribution depends on havocked values: only "every new member was added by some iteration"
+                new = ex.fresh(ft, "acc", ("set", et))
+                ft.assume(z3.ForAll([x], z3.Implies(z3.Select(new.term, x), z3.Or(z3.Select(oldt, x), added)), patterns=[z3.Select(new.term, x)]))
+                ft.assume(z3.ForAll([x], z3.Implies(z3.Select(oldt, x), z3.Select(new.term, x))))
+            else:
+                new = SV(z3.Lambda([x], z3.Or(z3.Select(oldt, x), added)), ("set", et))
             ft.heap[hid] = SetObj(sv=new, frozen=old.frozen)
             return
         # list accumulator
@@ -559,11 +582,18 @@ class Loops:
         if one_each:
             # map: exactly one element appended per (non-exiting) iteration
             ft.assume(ln(new.term) == ln(oldt) + z3.If(n > 0, n, 0))
+            alts = []
             for idx, (kind, c) in contribs:
                 s = normal_paths[idx][0]
                 val = ex.to_term(s, c[0], et)
-                body = z3.Implies(z3.And(*delta(s)), at(new.term, ln(oldt) + k) == val)
-                ft.assume(z3.ForAll([k] + created(s), body))
+                if not self._und(s):
+                    body = z3.Implies(z3.And(*delta(s)), at(new.term, ln(oldt) + k) == val)
+                    ft.assume(z3.ForAll([k] + created(s), body))
+                d = z3.And(*(delta(s) + [at(new.term, ln(oldt) + k) == val]))
+                cs = created(s)
+                alts.append(z3.Exists(cs, d) if cs else d)
+            if any(self._und(normal_paths[idx][0]) for idx, _c in contribs):
+                ft.assume(z3.ForAll([k], z3.Implies(z3.And(0 <= k, k < n), z3.Or(*alts)), patterns=[at(new.term, ln(oldt) + k)]))
         else:
             # (1) every new position holds an element contributed by some iteration
             j2 = z3.Int(f"j2!acc{fresh_id()}")
@@ -585,6 +615,8 @@ class Loops:
             # (2) every contributed element occurs at some new position
             for idx, (kind, c) in contribs:
                 s = normal_paths[idx][0]
+                if self._und(s):
+                    continue  # havocked values: "this value was appended" cannot be claimed for every admissible value
                 j3 = z3.Int(f"j3!acc{fresh_id()}")
                 if kind == "items":
                     for it in c:
@@ -608,13 +640,17 @@ class Loops:
                 curv = o.get(attr)
                 if isinstance(ty, tuple) and ty[0] in ("list", "set") and isinstance(curv, Ref):
                     fv = ex.fresh(st, "hv_" + attr, ty)
+                    st.undet.append(fv.term)
                     st.heap[curv.id] = ListObj(sv=fv) if ty[0] == "list" else SetObj(sv=fv)
                 else:
-                    st.heap[oref.id] = o.set(attr, ex.fresh(st, "hv_" + attr, ty))
+                    fv = ex.fresh(st, "hv_" + attr, ty)
+                    st.undet.append(fv.term)
+                    st.heap[oref.id] = o.set(attr, fv)
                 continue
             cur = ex.lookup(st, fr, nm) if self._has(st, fr, nm) else None
             if isinstance(ty, tuple) and ty[0] in ("list", "set"):
                 fv = ex.fresh(st, "hv_" + nm, ty)
+                st.undet.append(fv.term)
                 obj = ListObj(sv=fv) if ty[0] == "list" else SetObj(sv=fv)
                 if isinstance(cur, Ref):
                     st.heap[cur.id] = obj
@@ -623,9 +659,13 @@ class Loops:
             elif isinstance(ty, tuple) and ty[0] == "bag":
                 o = st.heap[cur.id]
                 counts = tuple(z3.Int(f"hv_{nm}_{u}!{fresh_id()}") for u in o.universe)
+                st.created.extend(counts)
+                st.undet.extend(counts)
                 st.heap[cur.id] = BagObj(o.universe, counts)
             else:
-                ex.assign_name(st, fr, nm, ex.fresh(st, "hv_" + nm, ty))
+                fv = ex.fresh(st, "hv_" + nm, ty)
+                st.undet.append(fv.term)
+                ex.assign_name(st, fr, nm, fv)
 
     def _has(self, st, fr, nm):
         try:
@@ -710,7 +750,10 @@ class Loops:
                         out.append((s3, NORMAL))
                     continue
                 v0 = spec.variant(LoopCtx(ex, s3, fr, None, None, None, pre)) if spec.variant else None
-                for s4, o4 in ex.exec_block(node.body, s3, fr):
+                body_outs = ex.exec_block(node.body, s3, fr)
+                if not body_outs:
+                    raise Unsupported(f"loop {key}: the body has no outcome from a feasible state (engine imprecision)")
+                for s4, o4 in body_outs:
                     if o4.kind in ("normal", "continue"):
                         self.oblige(f"{tag}/inv-keep", s4, spec.inv(LoopCtx(ex, s4, fr, None, None, None, pre)), "inv-keep")
                         if v0 is not None:
